@@ -68,6 +68,7 @@ class Aggregate:
         self.status: Counter = Counter()
         self.max_iterations = 0
         self.families: Counter = Counter()
+        self.family_cpu: Counter = Counter()
         self.cpu = 0.0
         self.extra: dict = {}
 
@@ -84,6 +85,7 @@ class Aggregate:
                 self.caps += 1
             return
         self.families[job["family"]] += 1
+        self.family_cpu[job["family"].split("/")[0] + "/" + job["family"].split("/")[-1]] += res.get("cpu", 0.0)
         self.states.update(res["states"])
         self.transitions += res["transitions"]
         self.instances += res["instances"]
@@ -215,6 +217,7 @@ def finish(prop: str, tier: str, seed: int, agg: Aggregate, t0: float, rule: str
         "status": dict(agg.status),
         "max_loop_iterations": agg.max_iterations,
         "families": dict(agg.families),
+        "family_cpu_s": {k: round(v, 1) for k, v in agg.family_cpu.items()},
         "caps_hit": agg.caps,
         "exhaustive": exhaustive,
         "bounds": bounds,
